@@ -1,1 +1,113 @@
-../C19/msg_header.kani.rs
+//@ crate: grin_p2p
+//@ target: p2p/src/msg.rs
+//@ assume: KReader/KWriter model BinReader/BinWriter over byte slices; global::get_chain_type stubbed to an arbitrary chain type fixed per harness (all four explored)
+//@ assume: decided here: header-level refusal (magic, per-type length limit, unknown type limit) and header round trip; Codec buffering, socket-level handshake refusals and timeouts are outside (DESIGN 6 C19)
+//@ harness c19_header_limits kind=complete tier=quick fns=MsgHeaderWrapper::read,msg::max_msg_size,msg::default_max_msg_size,msg::max_block_size,msg::magic,Type::from_u8 bound=-
+//@ harness c19_header_roundtrip kind=complete tier=quick fns=MsgHeader::new,MsgHeader::write,MsgHeaderWrapper::read bound=-
+use crate::core::verif_kani_support::{KReader, KWriter};
+use crate::core::ser::SerializationMode;
+
+use crate::core::verif_kani_support::{init_globals, stub_format, stub_get_chain_type, CHAIN_TYPE_IDX};
+fn init_ct() -> u8 {
+	init_globals();
+	unsafe { CHAIN_TYPE_IDX }
+}
+/// the published limits, written independently of max_msg_size
+fn table(t: u8, ct: u8) -> Option<u64> {
+	let mbs: u64 = if ct < 2 { 250 / 21 * 708 } else { 40_000 / 21 * 708 };
+	Some(match t {
+		0 => 0,
+		1 => 128,
+		2 => 88,
+		3 => 16,
+		4 => 16,
+		5 => 4,
+		6 => 4 + 19 * 256,
+		7 => 1 + 32 * 20,
+		8 => 365,
+		9 => 2 + 365 * 512,
+		10 => 32,
+		11 => mbs,
+		12 => 32,
+		13 => mbs / 10,
+		14 => mbs,
+		15 => mbs,
+		16 => 40,
+		17 => 64,
+		18 => 64,
+		19 => 32,
+		20 => 32,
+		21 | 23 | 25 | 27 => 41,
+		22 | 24 | 26 | 28 => 2 * mbs,
+		_ => return None,
+	})
+}
+
+/// Every 11-byte header x chain type x protocol version: wrong magic is refused having read only
+/// the magic; a known type is accepted only with msg_len <= 4 * limit(type); an unknown type
+/// only with msg_len <= 4 * default limit; nothing else is accepted.
+#[kani::proof]
+#[kani::unwind(13)]
+#[kani::stub(alloc::fmt::format, stub_format)]
+#[kani::stub(crate::core::global::get_chain_type, stub_get_chain_type)]
+fn c19_header_limits() {
+	let ct = init_ct();
+	let buf: [u8; 11] = kani::any();
+	let mut r = KReader::<11>::full(buf, kani::any());
+	let m = magic();
+	assert!(m == if ct == 2 { [83, 59] } else if ct == 3 { [97, 61] } else { [73, 43] });
+	let mut lenb = [0u8; 8];
+	lenb.copy_from_slice(&buf[3..11]);
+	let announced = u64::from_be_bytes(lenb);
+	let mbs: u64 = if ct < 2 { 250 / 21 * 708 } else { 40_000 / 21 * 708 };
+	match MsgHeaderWrapper::read(&mut r) {
+		Ok(MsgHeaderWrapper::Known(h)) => {
+			assert!(buf[0] == m[0] && buf[1] == m[1], "C19: wrong magic refused");
+			assert!(h.msg_type as u8 == buf[2] && h.msg_len == announced);
+			let lim = table(buf[2], ct);
+			assert!(lim.is_some());
+			assert!(h.msg_len <= 4 * lim.unwrap(), "C19: announced length within 4x the type's limit");
+			assert!(r.pos == 11);
+		}
+		Ok(MsgHeaderWrapper::Unknown(len, t)) => {
+			assert!(buf[0] == m[0] && buf[1] == m[1], "C19: wrong magic refused");
+			assert!(t == buf[2] && len == announced);
+			assert!(table(t, ct).is_none(), "C19: only unknown types are skipped");
+			assert!(len <= 4 * mbs, "C19: unknown type bounded by the default limit");
+		}
+		Err(_) => {
+			if buf[0] != m[0] {
+				assert!(r.pos == 1, "C19: wrong magic refused without reading the length");
+			} else if buf[1] != m[1] {
+				assert!(r.pos == 2, "C19: wrong magic refused without reading the length");
+			} else {
+				let lim = table(buf[2], ct).unwrap_or(mbs);
+				assert!(announced > 4 * lim, "C19: a header within limits is not refused");
+			}
+		}
+	}
+}
+
+#[kani::proof]
+#[kani::unwind(13)]
+#[kani::stub(alloc::fmt::format, stub_format)]
+#[kani::stub(crate::core::global::get_chain_type, stub_get_chain_type)]
+fn c19_header_roundtrip() {
+	let ct = init_ct();
+	let t: u8 = kani::any();
+	kani::assume(t <= 28);
+	let ty = Type::from_u8(t).unwrap();
+	let len: u64 = kani::any();
+	let h = MsgHeader::new(ty, len);
+	let ver: u32 = kani::any();
+	let mut w = KWriter::<11>::new(ver, SerializationMode::Full);
+	assert!(h.write(&mut w).is_ok() && w.pos == 11);
+	let mut r = KReader::<11>::full(w.buf, ver);
+	match MsgHeaderWrapper::read(&mut r) {
+		Ok(MsgHeaderWrapper::Known(h2)) => {
+			assert!(h2.msg_type == ty && h2.msg_len == len && h2.magic == h.magic);
+		}
+		Ok(MsgHeaderWrapper::Unknown(..)) => assert!(false, "known type decoded as unknown"),
+		Err(_) => assert!(len > 4 * table(t, ct).unwrap()),
+	}
+}
